@@ -332,13 +332,15 @@ func c18GenCase(r *zzverif.Rng, out *zzverif.Out) *c18Case {
 	if r.Chance(1, 3) {
 		c.p = 1
 	}
-	switch r.Intn(8) {
+	switch r.Intn(10) {
 	case 0:
 		c.seed = 0
 	case 1:
 		c.seed = -r.Range(2, 1000)
 	case 2:
 		c.seed = int(r.U64() >> 1)
+	case 3: // the seed space around the 32-bit boundary and the -1 sentinel's bit pattern
+		c.seed = c18SpecialSeed(r)
 	default:
 		c.seed = r.Range(1, 1<<30)
 	}
@@ -596,7 +598,7 @@ func c18Spec(c *c18Case) Sampler {
 // c18RunCall runs call number `idx` of a history on the shared real sampler `realS`; `r` is the number
 // the seeded generator delivers if this call reaches it.  Returns whether the call consumes a random
 // number (by the model's rule) and whether the oracle needs Go's sort order (pdqsort ties).
-func c18RunCall(out *zzverif.Out, c *c18Case, fix bool, realS *Sampler, r float32, line string, idx int, crafted bool) (consumed, needPre bool) {
+func c18RunCall(out *zzverif.Out, c *c18Case, fix bool, realS *Sampler, r float32, line string, idx int, crafted bool) (consumed, needPre bool, result c18Result, stg *c18Stage) {
 	n := len(c.logits)
 	out.Count("calls")
 	hasNaN := c18HasNaN(c.logits)
@@ -604,7 +606,7 @@ func c18RunCall(out *zzverif.Out, c *c18Case, fix bool, realS *Sampler, r float3
 	if n == 0 {
 		res := c18CallSample(realS, c.logits)
 		out.Case(fmt.Sprintf("sample 0 0 %s %d %s %s %s 0 0", c18Bits(s.temperature), s.topK, c18Bits(s.topP), c18Bits(s.minP), c18Bits(r)), res.head)
-		return false, false
+		return false, false, res, nil
 	}
 
 	small := n <= 48
@@ -818,7 +820,7 @@ func c18RunCall(out *zzverif.Out, c *c18Case, fix bool, realS *Sampler, r float3
 			c18L2(out, c, &s, res3, line+fmt.Sprintf(" # call=%d on a fresh sampler, crafted r=%d/2^24", idx, k), stage)
 		}
 	}
-	return consumed, pre
+	return consumed, pre, res, stage
 }
 
 // c18FixedSrc is a rand.Source that always returns the same word.
@@ -1125,6 +1127,7 @@ func c18RunHist(out *zzverif.Out, h *c18Hist, fix bool) {
 		fmt.Sprintf("%s %d %s %s", c18Bits(realS.temperature), realS.topK, c18Bits(realS.topP), c18Bits(realS.minP)))
 	if realS.rng == nil {
 		out.L2("seed-ignored", line, "NewSampler returned a sampler without a seeded generator although seed != -1")
+		c18ReproFlat(out, h, line)
 		return
 	}
 	// the seeded stream, read from a second, identically constructed sampler
@@ -1141,7 +1144,7 @@ func c18RunHist(out *zzverif.Out, h *c18Hist, fix bool) {
 	anyPre := false
 	for j, logits := range h.calls {
 		c := &c18Case{temp: h.temp, p: h.p, mp: h.mp, k: h.k, seed: h.seed, logits: logits, weird: h.weird}
-		consumed, pre := c18RunCall(out, c, fix, &realS, stream[draws], line, j, j == 0 || j == len(h.calls)-1)
+		consumed, pre, _, _ := c18RunCall(out, c, fix, &realS, stream[draws], line, j, j == 0 || j == len(h.calls)-1)
 		if consumed {
 			draws++
 		}
@@ -1159,6 +1162,7 @@ func c18RunHist(out *zzverif.Out, h *c18Hist, fix bool) {
 		}
 		return heads
 	}
+	c18ReproFlat(out, h, line)
 	a, b := run(), run()
 	out.Count("repro_histories")
 	if strings.Join(a, ";") != strings.Join(b, ";") {
@@ -1192,6 +1196,36 @@ func c18RunHist(out *zzverif.Out, h *c18Hist, fix bool) {
 		out.Case(op.String(), strings.Join(a, ";"))
 	} else {
 		out.Count("hist_ops_skipped_tie_order_or_weird")
+	}
+}
+
+// the seeds that matter for "reproducible under a fixed seed": 32-bit boundary, all-ones low words
+// (the bit pattern of the -1 sentinel after a truncation), 63-bit, negative, 0
+func c18SpecialSeed(r *zzverif.Rng) int {
+	k := r.Range(1, 1000)
+	return zzverif.Pick(r, []int{1<<32 - 1, 1<<63 - 1, 1 << 32, 1<<32 + k, 1<<33 - 1, k<<32 | 0xFFFFFFFF, -(1 << 32) - 1,
+		-(1 << 32), -(1 << 31), -2, 0, 1<<31 - 1, 1 << 31, -(k << 32) - 1, math.MinInt64, 0xFFFFFFFF + k})
+}
+
+// c18ReproFlat: two fresh samplers with the same seed (never the sentinel -1) on a sequence of calls in
+// which the draw matters (flat distributions over 64 tokens, temperature 1) must return the same sequence.
+func c18ReproFlat(out *zzverif.Out, h *c18Hist, line string) {
+	if h.seed == -1 {
+		return
+	}
+	flat := make([]float32, 64)
+	run := func() string {
+		s := NewSampler(1, 0, 1, 0, h.seed, nil)
+		var b strings.Builder
+		for j := 0; j < 12; j++ {
+			b.WriteString(c18CallSample(&s, append([]float32(nil), flat...)).head + ";")
+		}
+		return b.String()
+	}
+	a, b := run(), run()
+	out.Count("repro_flat_sequences")
+	if a != b {
+		out.L2("not-reproducible", line, fmt.Sprintf("seed %d: two fresh samplers, 12 calls on 64 equal logits at temperature 1: %s vs %s", h.seed, a, b))
 	}
 }
 
@@ -1248,6 +1282,15 @@ func TestVerifC18(t *testing.T) {
 		if err != nil {
 			t.Fatal(err)
 		}
+		if strings.HasPrefix(strings.TrimSpace(string(b)), "G ") {
+			gh := c18ParseGHist(strings.TrimSpace(string(b)))
+			if gh == nil {
+				t.Fatalf("bad replay line")
+			}
+			c18RunGHist(out, c18MakeVocab(), gh, fix)
+			os.Remove(zzverif.OutDir() + "/current.txt")
+			return
+		}
 		h := c18ParseHist(strings.TrimSpace(string(b)))
 		if h == nil {
 			t.Fatalf("bad replay line")
@@ -1269,6 +1312,14 @@ func TestVerifC18(t *testing.T) {
 		}
 	}
 	c18GreedyNearTies(out, root.Fork(), fix)
+	// directed: every special seed, a history in which the draw matters
+	for _, sd := range []int{1<<32 - 1, 1<<63 - 1, 1 << 32, 1<<32 + 7, 1<<33 - 1, 5<<32 | 0xFFFFFFFF, -(1 << 32) - 1, -(1 << 32),
+		-(1 << 31), -2, 0, 1<<31 - 1, 1 << 31, math.MinInt64, 42} {
+		out.Count("directed_special_seeds")
+		flat := make([]float32, 16)
+		c18RunHist(out, &c18Hist{temp: 1, k: 0, p: 1, mp: 0, seed: sd, calls: [][]float32{flat, flat, flat}}, fix)
+	}
+	c18GrammarRuns(out, root.Fork(), fix, zzverif.EnvInt("VERIF_NG", 200))
 	for i := 0; i < n; i++ {
 		r := root.Fork()
 		c18RunHist(out, c18GenHist(r, out), fix)
